@@ -373,6 +373,39 @@ def build(rec: Dict[str, Any], seed: int, axis_aligned: bool = False) -> Built:
   <equality>{"".join(eq)}</equality>
   <sensor>{"".join(sens)}</sensor>
 </mujoco>"""
+  if F("tendon_spatial") and F("wrap") and nb >= 2 and rng_for(c, seed, "wrapbody").random() < 0.6:
+    # move the wrapping sphere onto the body of the tendon's first site, right between the first two sites (so that the tendon really wraps and
+    # the geom's body - with its own, possibly rotational, dofs - differs from the next site's body)
+    try:
+      import mujoco
+
+      mm = mujoco.MjModel.from_xml_string(out.xml)
+      dd = mujoco.MjData(mm)
+      mujoco.mj_kinematics(mm, dd)
+      p1, p2 = dd.site("s1").xpos.copy(), dd.site("s2").xpos.copy()
+      gap = float(np.linalg.norm(p2 - p1))
+      if gap > 0.08:
+        rad = min(0.08, 0.3 * gap)
+        u = np.cross(p2 - p1, np.array([0.3, -0.5, 0.8]))
+        u /= max(np.linalg.norm(u), 1e-9)
+        cw = 0.5 * (p1 + p2) + 0.4 * rad * u           # line s1-s2 passes 0.4 radii from the centre
+        sw = cw + 1.6 * rad * u * -1.0                  # side site on the far side
+        R, x0 = dd.body("b1").xmat.reshape(3, 3), dd.body("b1").xpos
+        loc, sloc = R.T @ (cw - x0), R.T @ (sw - x0)
+        g = (f'<geom name="wrapg" type="sphere" size="{rad:.4f}" pos="{_v(loc, 6)}" contype="0" conaffinity="0" mass="0.05"/>'
+             f'<site name="wrapside" pos="{_v(sloc, 6)}" size="0.01"/>')
+        old_world = ('<geom name="wrapg" type="sphere" size="0.08" pos="0.2 0.1 1.1" contype="0" conaffinity="0"/>'
+                     '<site name="wrapside" pos="0.2 0.1 1.3" size="0.01"/>')
+        i = out.xml.index('<body name="b1"')
+        j = out.xml.index(">", i) + 1
+        x2 = out.xml.replace(old_world, "")
+        i = x2.index('<body name="b1"')
+        j = x2.index(">", i) + 1
+        x2 = x2[:j] + g + x2[j:]
+        mujoco.MjModel.from_xml_string(x2)  # must compile
+        out.xml = x2
+    except Exception:
+      pass
   return out
 
 
